@@ -77,6 +77,9 @@ class World:
             mx, mn = self._lookup(coords, h)
             return max(mx - self.max_allow, self.min_allow - mn)
         h0 = self.root(coords)
+        if self.shape == "rising":
+            # excess positive over the whole window and GROWING with height (seen with very low system flow): root below the window
+            return self.slope * (h - h0)
         if self.shape == "linear":
             return self.slope * (h0 - h)
         # hyperbolic: same root, same sign structure, non-linear so that brentq iterates
